@@ -529,8 +529,94 @@ func init() {
 		l.p("def savePipesViaTmpRename : Bool := %s", leanBool(viaTmp && renames && !inPlace))
 		l.p("/-- functions of pkg/pipe that call `savePipes` -/")
 		l.p("def savePipesCallers : List String := %s", q(sp2))
-		l.p("def pipeDefsSavedOnCreate : Bool := %s", leanBool(c07Reaches(pfuncs, funcDecl(sf, "Service", "CreatePipe"), "savePipes", 2)))
-		l.p("def pipeDefsSavedOnDelete : Bool := %s", leanBool(c07Reaches(pfuncs, funcDecl(sf, "Service", "DeletePipe"), "savePipes", 2)))
+		// "saved" means: before CreatePipe / DeletePipe returns, a registry save that STARTED AFTER the change of the pipe map has
+		// completed. (1) Service.savePipes reaches persister.savePipes on every path: no return statement in front of that call,
+		// the call not in a go statement; (2) in CreatePipe / DeletePipe the call of savePipes comes after the map update
+		// (`s.ppipes[…] = …` / `delete(s.ppipes, …)`) and is not in a go statement
+		saveSync := false
+		if fd := funcDecl(sf, "Service", "savePipes"); fd == nil {
+			problem("pipe.Service.savePipes not found")
+		} else {
+			var callPos token.Pos
+			inGo := false
+			var walk func(n ast.Node, g bool)
+			walk = func(n ast.Node, g bool) {
+				ast.Inspect(n, func(x ast.Node) bool {
+					switch y := x.(type) {
+					case *ast.GoStmt:
+						walk(y.Call, true)
+						return false
+					case *ast.CallExpr:
+						if sel := c07Sel(y.Fun); strings.HasSuffix(sel, "psr.savePipes") && callPos == token.NoPos {
+							callPos = y.Pos()
+							inGo = g
+						}
+					}
+					return true
+				})
+			}
+			walk(fd.Body, false)
+			early := false
+			ast.Inspect(fd.Body, func(x ast.Node) bool {
+				if r, ok := x.(*ast.ReturnStmt); ok && callPos != token.NoPos && r.Pos() < callPos {
+					early = true
+				}
+				return true
+			})
+			if callPos == token.NoPos {
+				problem("pipe.Service.savePipes does not call persister.savePipes")
+			}
+			saveSync = callPos != token.NoPos && !inGo && !early
+		}
+		savedAfterUpdate := func(fd *ast.FuncDecl, isUpdate func(ast.Node) bool) bool {
+			if fd == nil {
+				return false
+			}
+			var updPos, savePos token.Pos
+			inGo := false
+			var walk func(n ast.Node, g bool)
+			walk = func(n ast.Node, g bool) {
+				ast.Inspect(n, func(x ast.Node) bool {
+					if gs, ok := x.(*ast.GoStmt); ok {
+						walk(gs.Call, true)
+						return false
+					}
+					if isUpdate(x) && updPos == token.NoPos {
+						updPos = x.Pos()
+					}
+					if ce, ok := x.(*ast.CallExpr); ok {
+						if sel := c07Sel(ce.Fun); sel == "savePipes" || strings.HasSuffix(sel, ".savePipes") {
+							savePos = ce.Pos() // the LAST save counts
+							inGo = g
+						}
+					}
+					return true
+				})
+			}
+			walk(fd.Body, false)
+			return updPos != token.NoPos && savePos != token.NoPos && updPos < savePos && !inGo
+		}
+		isMapAssign := func(x ast.Node) bool {
+			as, ok := x.(*ast.AssignStmt)
+			if !ok {
+				return false
+			}
+			for _, lh := range as.Lhs {
+				if ie, ok := lh.(*ast.IndexExpr); ok && strings.HasSuffix(c07Sel(ie.X), "ppipes") {
+					return true
+				}
+			}
+			return false
+		}
+		isMapDelete := func(x ast.Node) bool {
+			ce, ok := x.(*ast.CallExpr)
+			return ok && c07Sel(ce.Fun) == "delete" && len(ce.Args) == 2 && strings.HasSuffix(c07Sel(ce.Args[0]), "ppipes")
+		}
+		l.p("/-- before `CreatePipe` / `DeletePipe` returns, a registry save that started after the change of the pipe map has completed:")
+		l.p("`Service.savePipes` has no return in front of `persister.savePipes` and does not start it in a goroutine, and the caller")
+		l.p("calls it after the map update, not in a goroutine -/")
+		l.p("def pipeDefsSavedOnCreate : Bool := %s", leanBool(saveSync && c07Reaches(pfuncs, funcDecl(sf, "Service", "CreatePipe"), "savePipes", 2) && savedAfterUpdate(funcDecl(sf, "Service", "CreatePipe"), isMapAssign)))
+		l.p("def pipeDefsSavedOnDelete : Bool := %s", leanBool(saveSync && c07Reaches(pfuncs, funcDecl(sf, "Service", "DeletePipe"), "savePipes", 2) && savedAfterUpdate(funcDecl(sf, "Service", "DeletePipe"), isMapDelete)))
 		// DeletePipe: is the position file removed (a call that reaches persister.onDeleteStream, e.g. ppipe.delete) BEFORE the
 		// registry is saved, both synchronously (not inside a go statement)?
 		removeFirst := false
@@ -572,6 +658,76 @@ func init() {
 			}
 			removeFirst = removePos != 0 && savePos != 0 && removePos < savePos && !async
 		}
+		// worker.run: inside the copy loop, between the copy (`….Write(…)`) and `saveState` only error paths (an `if` whose
+		// condition tests `err`) may leave or skip: a finished copy is always followed by a position save
+		wf := parseFile("pkg/pipe/worker.go")
+		savesAfterCopy := false
+		if fd := funcDecl(wf, "worker", "run"); fd == nil {
+			problem("pipe.worker.run not found")
+		} else {
+			ast.Inspect(fd.Body, func(n ast.Node) bool {
+				fs, ok := n.(*ast.ForStmt)
+				if !ok {
+					return true
+				}
+				hasCall := func(x ast.Node, suffix string) bool {
+					f := false
+					ast.Inspect(x, func(y ast.Node) bool {
+						if ce, ok := y.(*ast.CallExpr); ok && strings.HasSuffix(c07Sel(ce.Fun), suffix) {
+							f = true
+						}
+						return true
+					})
+					return f
+				}
+				wi, si := -1, -1
+				for i, st := range fs.Body.List {
+					if wi < 0 && hasCall(st, ".Write") {
+						wi = i
+					}
+					if wi >= 0 && si < 0 && hasCall(st, ".saveState") {
+						si = i
+					}
+				}
+				if wi < 0 || si < 0 {
+					return true
+				}
+				ok2 := true
+				for _, st := range fs.Body.List[wi+1 : si] {
+					leaves := false
+					ast.Inspect(st, func(y ast.Node) bool {
+						switch z := y.(type) {
+						case *ast.BranchStmt:
+							leaves = leaves || z.Tok == token.BREAK || z.Tok == token.CONTINUE || z.Tok == token.GOTO
+						case *ast.ReturnStmt:
+							leaves = true
+						}
+						return true
+					})
+					if !leaves {
+						continue
+					}
+					is, isIf := st.(*ast.IfStmt)
+					onErr := false
+					if isIf {
+						ast.Inspect(is.Cond, func(y ast.Node) bool {
+							if id, ok := y.(*ast.Ident); ok && id.Name == "err" {
+								onErr = true
+							}
+							return true
+						})
+					}
+					if !onErr {
+						ok2 = false
+					}
+				}
+				savesAfterCopy = ok2
+				return false
+			})
+		}
+		l.p("/-- `worker.run`: between a copy (`Journals.Write`) and `saveState` only error paths leave the loop: a copy that succeeded is")
+		l.p("always followed by a save of the position, also when the pipe is being closed -/")
+		l.p("def workerSavesPositionAfterEveryCopy : Bool := %s", leanBool(savesAfterCopy))
 		npp := funcDecl(ppf, "", "newPPipe")
 		if npp == nil {
 			problem("pipe.newPPipe not found")
